@@ -19,6 +19,7 @@ RULE = (
     "(converter, function, input) triple on which all mode combinations are related to the default call: default never "
     "raises; passthrough returns the default value or the input unchanged; strict (with or without passthrough) returns the default value or raises a "
     "ConversionError / StandardizationError / NoCURIEDelimiterError instance; nothing else escapes. "
+    "Every case is checked on the same converter reached through seven histories (built at once; grown string by string with all queries issued after every mutation; split into whole records and merged; grown by case-insensitive merges; every record re-merged into itself case-insensitively; after calls that must be rejected; as by-standing input of every derivation whose results were then mutated). "
     "Non-trivial = the default result is None (failure path); distinct by hash of (records, delimiter, function, input)."
 )
 ASSUMPTIONS = [
